@@ -1,6 +1,6 @@
 PROP = dict(
     id="C39",
-    engines=["c39"],
+    engines=["c39", "c39m"],
     go_tags=["c39"],
     extract_files={"MM/Gen/LockC39.lean": {"cmd": ["go", "run", "{VERIF}/tools/lockshape.go", "LockC39",
         "{REPO}/internal/agent/agent.go", "Agent.handleControlRequest,Agent.handleControlResponse,Agent.SendControlRequestWithData",
@@ -26,8 +26,8 @@ PROP = dict(
     trusted_base=[
         "MM/Model/C39.lean models SendControlRequestWithData / handleControlRequest / handleControlResponse with maps keyed by the bare "
         "request id; route tables are not modelled (next hop = explicit path head or the target when it is a direct peer)",
-        "the FIFO network of model agents used by C39_refuted is not tied by T-diff (DESIGN section 6 reproduced the same scenario with "
-        "four real agents); the per-agent functions it is built from are",
+        "engine c39m: five real agents over loopback QUIC (routes by flooding) against the network of model agents explored under every "
+        "per-link-FIFO delivery order; the answer of a round must be one of the model's outcomes",
     ],
     assumptions=[
         "C39_partial: request ids live at an agent are distinct (no request arrives, and no local request is issued, under an id that is "
